@@ -1,3 +1,231 @@
+/-
+C07 — Link budgets cap loaded blocks exactly.
+
+  "When a link budget N applies to a request (the smaller non-zero of the global and per-request
+   limits, on either peer), the peer enforcing it loads at most N blocks for that request.  If the
+   selector traversal needs at most N blocks the budget never causes a failure, and if it needs
+   more the request fails with a budget-exceeded error after exactly N blocks."
+
+"needs k blocks" = the unbudgeted traversal performs k link loads (root included, loads that are
+answered "missing" included) = `need avail t`, for the link tree `t` of the DAG + selector and the
+store `avail` of the peer (quantified over all finite link trees and all stores).
+
+The root check of ipldutil/traverser.go, go-ipld-prime's checkLinkBudget, and the selection /
+conversion of the limit in requestmanager/server.go and responsemanager/server.go are the
+*generated* definitions of GS/Generated/Budget.lean; `root_is_charge`, `link_is_charge`,
+`pick_eq` are the facts about them everything else rests on.
+-/
 import GS.Model.BudgetRun
+import GSProofs.Lemmas.Budget
 namespace GS.C07
+open GS.Budget GS.Generated.Budget
+
+/-! ### facts about the generated shapes -/
+
+/-- traverser.start tests the counter (<= 0 fails) and then decrements it — after fix 408e52a;
+    before it the steps were `[dec 1, failIf le 0]`, for which this is false at n = 1. -/
+theorem root_is_charge : IsCharge rootCheck := by
+  intro n
+  cases n with
+  | zero => simp [rootCheck, runSteps, Cmp.eval]
+  | succ k =>
+    simp only [rootCheck, runSteps, Cmp.eval]
+    simp
+
+/-- go-ipld-prime's checkLinkBudget has the same shape -/
+theorem link_is_charge : IsCharge linkCheck := by
+  intro n
+  cases n with
+  | zero => simp [linkCheck, runSteps, Cmp.eval]
+  | succ k =>
+    simp only [linkCheck, runSteps, Cmp.eval]
+    simp
+
+theorem wiring : rootCheckBeforeLoad = true ∧ sharedCounter = true := ⟨rfl, rfl⟩
+
+/-! ### the traversal under a budget handed to the TraversalBuilder -/
+
+theorem unbudgeted_loads (avail : Cid → Bool) (t : LT) :
+    (traverse avail none t).loads = trav avail t := by
+  cases t with
+  | node c kids => by_cases h : avail c = true <;> simp [traverse, run, trav, h]
+
+theorem unbudgeted_never_budget_error (avail : Cid → Bool) (t : LT) :
+    (traverse avail none t).outcome ≠ .budgetExceeded := by
+  cases t with
+  | node c kids => by_cases h : avail c = true <;> simp [traverse, run, h]
+
+/-- closed form of a budgeted run, N ≥ 1 -/
+theorem traverse_budget (avail : Cid → Bool) (c : Cid) (kids : List LT) (k : Nat) :
+    traverse avail (some ((k + 1 : Nat) : Int)) (.node c kids) =
+      if avail c then
+        (if (travL avail kids).length ≤ k then ⟨c :: travL avail kids, .ok⟩
+         else ⟨c :: (travL avail kids).take k, .budgetExceeded⟩)
+      else ⟨[c], .rootMissing⟩ := by
+  unfold traverse run
+  simp only [root_is_charge (k + 1), Nat.add_one_ne_zero, if_false, Nat.add_sub_cancel]
+  rw [travBL_eq linkCheck link_is_charge avail kids k]
+  unfold expect
+  by_cases ha : avail c = true
+  · by_cases hl : (travL avail kids).length ≤ k <;> simp [ha, hl]
+  · simp [ha]
+
+/-- **cap**: under a budget N ≥ 1 at most N blocks are loaded -/
+theorem cap (avail : Cid → Bool) (t : LT) (N : Nat) (hN : 1 ≤ N) :
+    (traverse avail (some (N : Int)) t).loads.length ≤ N := by
+  obtain ⟨k, rfl⟩ : ∃ k, N = k + 1 := ⟨N - 1, by omega⟩
+  cases t with
+  | node c kids =>
+    rw [traverse_budget]
+    by_cases ha : avail c = true
+    · by_cases hl : (travL avail kids).length ≤ k
+      · simp [ha, hl]
+      · simp [ha, hl]; omega
+    · simp [ha]
+
+/-- **enough**: if the traversal needs at most N blocks, the budgeted run *is* the unbudgeted run
+    (same loads, same outcome — in particular never a budget error) -/
+theorem enough (avail : Cid → Bool) (t : LT) (N : Nat) (hN : 1 ≤ N) (h : need avail t ≤ N) :
+    traverse avail (some (N : Int)) t = traverse avail none t := by
+  obtain ⟨k, rfl⟩ : ∃ k, N = k + 1 := ⟨N - 1, by omega⟩
+  cases t with
+  | node c kids =>
+    rw [traverse_budget]
+    by_cases ha : avail c = true
+    · have hl : (travL avail kids).length ≤ k := by
+        simp [need, trav, ha] at h; omega
+      simp [traverse, run, ha, hl]
+    · simp [traverse, run, ha]
+
+theorem enough_no_failure (avail : Cid → Bool) (t : LT) (N : Nat) (hN : 1 ≤ N)
+    (h : need avail t ≤ N) :
+    (traverse avail (some (N : Int)) t).outcome ≠ .budgetExceeded := by
+  rw [enough avail t N hN h]; exact unbudgeted_never_budget_error avail t
+
+/-- **exact**: if the traversal needs more than N blocks, the run fails with the budget error
+    after loading exactly N blocks, and they are the first N loads of the unbudgeted run -/
+theorem exact (avail : Cid → Bool) (t : LT) (N : Nat) (hN : 1 ≤ N) (h : need avail t > N) :
+    (traverse avail (some (N : Int)) t).outcome = .budgetExceeded ∧
+    (traverse avail (some (N : Int)) t).loads = (trav avail t).take N ∧
+    (traverse avail (some (N : Int)) t).loads.length = N := by
+  obtain ⟨k, rfl⟩ : ∃ k, N = k + 1 := ⟨N - 1, by omega⟩
+  cases t with
+  | node c kids =>
+    rw [traverse_budget]
+    by_cases ha : avail c = true
+    · have hl : ¬ (travL avail kids).length ≤ k := by
+        simp [need, trav, ha] at h; omega
+      simp [ha, hl, trav]; omega
+    · simp [need, trav, ha] at h
+
+/-! ### which budget applies: the smaller non-zero of the global and the per-request limit -/
+
+/-- the property's "smaller non-zero of the two, 0 = none" -/
+def effective (g p : Nat) : Nat := if g = 0 then p else if p = 0 then g else min g p
+
+/-- **select** (both peers): the generated selection expression is `effective` -/
+theorem pick_eq (side : Side) (g p : Nat) : pick side g p = effective g p := by
+  cases side <;>
+  · simp only [pick, requestorPick, responderPick, effective]
+    by_cases hg : g = 0
+    · simp [hg]
+    · by_cases hp : p = 0
+      · simp [hg, hp]
+      · by_cases hlt : p < g
+        · simp [hg, hp, hlt, Nat.min_eq_right (Nat.le_of_lt hlt)]
+        · simp [hg, hp, hlt, Nat.min_eq_left (Nat.le_of_not_lt hlt)]
+
+theorem guard_eq (side : Side) (m : Nat) : guard side m = decide (m > 0) := by
+  cases side <;> rfl
+
+theorem clamp_on (side : Side) : clamp side = true := by cases side <;> rfl
+
+/-- **select**, as a budget: no limit configured = nil budget; otherwise the effective limit,
+    clamped to int64 (fix 93d1464; before it, limits >= 2^63 became negative budgets) -/
+theorem linkBudget_eq (side : Side) (g p : Nat) (hg : g < 2 ^ 64) (hp : p < 2 ^ 64) :
+    linkBudget side g p =
+      if effective g p = 0 then none else some ((min (effective g p) (2 ^ 63 - 1) : Nat) : Int) := by
+  have he : effective g p < 2 ^ 64 := by
+    unfold effective; split
+    · exact hp
+    · split
+      · exact hg
+      · exact Nat.lt_of_le_of_lt (Nat.min_le_left _ _) hg
+  unfold linkBudget
+  simp only [pick_eq, guard_eq, clamp_on, Bool.true_and]
+  generalize effective g p = m at he ⊢
+  by_cases h0 : m = 0
+  · simp [h0]
+  · have hpos : m > 0 := Nat.pos_of_ne_zero h0
+    simp only [h0, if_false, hpos, decide_true, if_true]
+    congr 1
+    by_cases hbig : (m : Int) > maxInt64
+    · have : min m (2 ^ 63 - 1) = 2 ^ 63 - 1 := by
+        unfold maxInt64 at hbig; omega
+      have hb' : (9223372036854775807 : Int) < (m : Int) := by unfold maxInt64 at hbig; exact hbig
+      simp [this, castInt64, maxInt64, hb']
+    · have hm : min m (2 ^ 63 - 1) = m := by
+        unfold maxInt64 at hbig; omega
+      have h64 : m % 18446744073709551616 = m := Nat.mod_eq_of_lt (by simpa using he)
+      have hlt : m < 9223372036854775808 := by unfold maxInt64 at hbig; omega
+      simp [hbig, hm, castInt64, h64, hlt]
+
+/-! ### the three parts of the property on either peer, for uint64 limits -/
+
+/-- at most N blocks, N = the effective limit (any uint64 values) -/
+theorem serve_cap (side : Side) (avail : Cid → Bool) (g p : Nat) (hg : g < 2 ^ 64) (hp : p < 2 ^ 64)
+    (t : LT) (hN : 1 ≤ effective g p) :
+    (serve side avail g p t).loads.length ≤ effective g p := by
+  unfold serve
+  rw [linkBudget_eq side g p hg hp]
+  have : effective g p ≠ 0 := by omega
+  simp only [this, if_false]
+  have hm : 1 ≤ min (effective g p) (2 ^ 63 - 1) := by omega
+  exact Nat.le_trans (cap avail t _ hm) (Nat.min_le_left _ _)
+
+/-- no limit configured: the traversal runs without a budget -/
+theorem serve_unlimited (side : Side) (avail : Cid → Bool) (t : LT) :
+    serve side avail 0 0 t = traverse avail none t := by
+  unfold serve
+  rw [linkBudget_eq side 0 0 (by decide) (by decide)]
+  simp [effective]
+
+/-- enough: needs ≤ N blocks ⇒ same result as without a budget.
+    (`need < 2^63`: the counter is an int64; no traversal performs 2^63 link loads.) -/
+theorem serve_enough (side : Side) (avail : Cid → Bool) (g p : Nat) (hg : g < 2 ^ 64) (hp : p < 2 ^ 64)
+    (t : LT) (hN : 1 ≤ effective g p) (h : need avail t ≤ effective g p) (hphys : need avail t < 2 ^ 63) :
+    serve side avail g p t = traverse avail none t := by
+  unfold serve
+  rw [linkBudget_eq side g p hg hp]
+  have : effective g p ≠ 0 := by omega
+  simp only [this, if_false]
+  exact enough avail t _ (by omega) (by omega)
+
+/-- exact: needs more than N blocks ⇒ budget error after exactly the first N loads -/
+theorem serve_exact (side : Side) (avail : Cid → Bool) (g p : Nat) (hg : g < 2 ^ 64) (hp : p < 2 ^ 64)
+    (t : LT) (hN : 1 ≤ effective g p) (h : need avail t > effective g p) (hphys : need avail t < 2 ^ 63) :
+    (serve side avail g p t).outcome = .budgetExceeded ∧
+    (serve side avail g p t).loads = (trav avail t).take (effective g p) ∧
+    (serve side avail g p t).loads.length = effective g p := by
+  unfold serve
+  rw [linkBudget_eq side g p hg hp]
+  have : effective g p ≠ 0 := by omega
+  simp only [this, if_false]
+  have hm : min (effective g p) (2 ^ 63 - 1) = effective g p := by omega
+  rw [hm]
+  exact exact avail t _ hN h
+
+/-! ### non-vacuity / boundary (tests of the statements on concrete trees) -/
+
+def exTree : LT := .node 9 [.node 3 [.node 1 [], .node 1 []], .node 4 [.node 1 []], .node 5 []]
+
+example : need (fun _ => true) exTree = 7 := by decide
+example : need (fun c => c != 3) exTree = 5 := by decide
+/-- N = 1 on a single block (the case that failed before fix 408e52a) -/
+example : traverse (fun _ => true) (some 1) (.node 0 []) = ⟨[0], .ok⟩ := by decide
+example : traverse (fun _ => true) (some 1) exTree = ⟨[9], .budgetExceeded⟩ := by decide
+example : traverse (fun _ => true) (some 7) exTree = traverse (fun _ => true) none exTree := by decide
+example : (traverse (fun _ => true) (some 6) exTree).outcome = .budgetExceeded := by decide
+example : effective 0 5 = 5 ∧ effective 5 0 = 5 ∧ effective 3 5 = 3 ∧ effective 5 3 = 3 ∧ effective 0 0 = 0 := by decide
+
 end GS.C07
